@@ -327,6 +327,23 @@ func realBuild(root string, targets []string) (ok bool, errText string, exec []s
 	return true, "", exec
 }
 
+// waitTick makes sure the clock has moved on since the newest file under
+// out/ was written, so that a rebuilt output cannot get the mtime it had (the
+// model's hypothesis "an output write leaves a new stat"; only matters on file
+// systems with coarse timestamps).
+func waitTick(root string) {
+	var newest time.Time
+	filepath.Walk(filepath.Join(root, "out"), func(p string, info os.FileInfo, err error) error {
+		if err == nil && !info.IsDir() && info.ModTime().After(newest) {
+			newest = info.ModTime()
+		}
+		return nil
+	})
+	if d := time.Since(newest); d >= 0 && d < 8*time.Millisecond {
+		time.Sleep(8*time.Millisecond - d)
+	}
+}
+
 var scratch string
 
 func fatal(what string, err error) {
@@ -412,6 +429,7 @@ func runCase(c *Case, withClean bool) {
 			}
 		case "build":
 			o := &BuildObs{}
+			waitTick(root)
 			o.Ok, o.Err, o.Exec = realBuild(root, op.Targets)
 			o.Outs = snapshotOut(root)
 			if withClean {
